@@ -59,6 +59,8 @@ THEOREMS = [
     "Opacus.GdpMono.strictMonoOn_mu",
     "Opacus.GdpMono.gaussLike_Phi",
     "Opacus.C07.compose_heterogeneous_perm_invariant",
+    # the tie to the source: Generated/GdpAnalysis.lean is re-translated from accountants/analysis/gdp.py on every run
+    "Opacus.C12.generated_gdp_eq_model",
 ]
 RULE = (
     "correspondence cases: step() sequences over a small pool of (sigma, q) pairs (exact); CLI tuples (q, sigma, epochs, delta, orders); "
@@ -68,6 +70,7 @@ RULE = (
     "non-trivial iff the two histories differ as lists (or the parameter really changed) and both evaluations succeed; distinct by (accountant, relation, history, delta)"
 )
 TRUSTED = [
+    "the translator vharness/pytrans.py + props/c12_trans.py (Python `ast` -> Lean real arithmetic; subset in its docstring, anything else is reported as a broken tie) is trusted to render compute_mu_poisson / compute_mu_uniform / delta_eps_mu faithfully; the same functions are also run against the model by the behavioural correspondence",
     "scipy.stats.norm.cdf, scipy.optimize.root_scalar(brentq) compute what they name; Dong-Roth-Su 2019 (GDP central limit theorem) is cited: the check is about the formula, not about GDP being a valid bound",
     "monotonicity / invariance theorems are over the reals for integer orders >= 2 (any non-empty list), sample rates in [0,1], sigma > 0; float summation order is not modelled (the search uses rel 1e-9)",
 ]
@@ -282,6 +285,13 @@ def closed_form_oracle(case=None, rng=None, n=30):
         want = q * math.sqrt(T * math.expm1(1 / (s * s)))
         if not core.close(float(mu), want, 1e-9):
             return ("C12:closed-form:gdp-mu", f"compute_mu_poisson(steps={T}, sigma={s}, q={q}) = {mu}, central-limit formula gives {want}", {"failing_input": {"kind": "gdp-mu", "steps": T, "sigma": s, "q": q}})
+        # delta_eps_mu itself against the Gaussian dual written out independently (Dong-Roth-Su eq. 6)
+        e0, m0 = rng.uniform(0.0, 8.0), 10 ** rng.uniform(-1.0, 0.8)
+        dd = float(G.delta_eps_mu(eps=e0, mu=m0))
+        wd = norm.cdf(-e0 / m0 + m0 / 2) - math.exp(e0) * norm.cdf(-e0 / m0 - m0 / 2)
+        if not core.close(dd, wd, 1e-9, 1e-15):
+            return ("C12:closed-form:gdp-dual", f"delta_eps_mu(eps={e0}, mu={m0}) = {dd}, the Gaussian dual Phi(-eps/mu + mu/2) - e^eps Phi(-eps/mu - mu/2) = {wd}",
+                    {"failing_input": {"kind": "gdp-dual-direct", "eps": e0, "mu": m0}})
         d = 10 ** rng.uniform(-8, -3)
         g = GaussianAccountant()
         g.history = [(s, q, T)]
@@ -467,7 +477,35 @@ def metamorphic(ctx):
                 ctx.property_failure(finding[0], finding[1], dict(finding[2], failing_input={"accountant": name, "relation": rel, "history": h, "delta": d, "pair": pair if not isinstance(pair[0], tuple) else None}))
 
 
+def regenerate(ctx):
+    """§2.4(a): re-translate analysis/gdp.py of the tree under test; if the text changed, re-build and re-audit"""
+    import os
+
+    from . import c12_trans as T
+    try:
+        txt = T.translate()
+        ctx.extra["translator"] = "ok"
+    except T.Untranslatable as e:
+        txt = ("/-! GENERATED – analysis/gdp.py is outside the translator's subset: " + str(e)[:300].replace("-/", "- /")
+               + " -/\nnamespace Opacus.Generated.Gdp\nend Opacus.Generated.Gdp\n")
+        ctx.extra["translator"] = "untranslatable: " + str(e)[:300]
+        ctx.log("translator:", ctx.extra["translator"])
+    old = T.GEN_FILE.read_text() if T.GEN_FILE.exists() else None
+    ctx.extra["generated_gdp"] = "unchanged" if old == txt else "CHANGED (re-proved)"
+    if old == txt:
+        return
+    foreign = os.path.realpath(str(core.REPO)) != "/repo"
+    try:
+        T.GEN_FILE.write_text(txt)
+        ctx.obligations = []
+        ctx.prove()
+    finally:
+        if foreign and old is not None:
+            T.GEN_FILE.write_text(old)
+
+
 def run(ctx):
+    regenerate(ctx)
     corr_history(ctx)
     corr_script(ctx)
     corr_gdp(ctx)
